@@ -83,6 +83,14 @@ mod env_util {
     }
 }
 
+#[cfg(all(
+    feature = "verif_hooks",
+    any(feature = "file_appender", feature = "rolling_file_appender")
+))]
+pub(crate) fn verif_expand_env_vars(path: &str) -> String {
+    env_util::expand_env_vars(path).into_owned()
+}
+
 /// A trait implemented by log4rs appenders.
 ///
 /// Appenders take a log record and processes them, for example, by writing it
